@@ -160,6 +160,21 @@ def sweep(ctx, identity, vs, cs, ms, seedtag, pinned=False, word=None):
         except refmodel.DefinitionError:
             return
         ok = must_reject(ctx, identity, p, why, dict(base, cutlen=ln))
+        if ok and ln % 9 == 4:
+            # one receive buffer used twice: the complete message is parsed from it, the buffer is shortened IN PLACE, and
+            # the same object is offered again
+            buf = bytearray(full)
+            try:
+                parse(buf)
+                del buf[ln:]
+                msg2 = parse(buf)
+            except Exception:
+                msg2 = None
+            if msg2 is not None:
+                ctx.violation("short-payload-accepted", f"{identity}: a bytearray shortened in place to {ln} bytes after a "
+                              f"first parse of its {len(full)} bytes is accepted although {why}", dict(base, cutlen=ln))
+                return
+            ctx.hit("buffers_shortened_in_place")
         if ok and (ln % 3 == 0 or ln >= len(full) - 4):
             ok = must_reject_framed(ctx, identity, p, why, dict(base, cutlen=ln), len(full))
         ctx.hit("cuts_checked")
